@@ -1076,11 +1076,20 @@ def r5_widths(program, rep):
     if ok:
         b_, F, val = ups[0]
         pv = plain(val)
+        VAL_ = plain(("comp", E, 1))
         ok = F[2][:1] == (("comp", E, 0),) and pv[0] == "call" and \
             pv[1] == ("global", "max") and len(pv[2]) == 2 and \
-            plain(("comp", E, 1)) in pv[2] and any(
+            VAL_ in pv[2] and any(
                 x[0] == "attr" and x[2] == "max_value" and x[1] == plain(F)
                 for x in pv[2])
+        if not ok and F[2][:1] == (("comp", E, 0),) and pv == VAL_:
+            # if value > field.max_value: field.max_value = value
+            for t_, p_ in T.all_facts(b_.node):
+                tp = plain(t_)
+                if p_ and tp[0] == "cmp" and tp[1] in ("Lt", "LtE") and \
+                        tp[3] == VAL_ and tp[2][0] == "attr" and \
+                        tp[2][2] == "max_value" and tp[2][1] == plain(F):
+                    ok = True
     rep.check(ok, "C08-R5", inst, "every value accepted updates the field's "
               "max_value = max(old, value), over the same field_values the "
               "validation loop covered", construct="max_value update",
